@@ -56,6 +56,29 @@ class _Subst(ast.NodeTransformer):
         return n
 
 
+def _fresh_comprehension_vars(node, taken):
+    """The variables bound by the comprehensions of an inlined helper live in a scope of their own; once the helper's text sits
+    in the caller they may share a name with one of the caller's locals, and a flow-insensitive reading by name would join the
+    two.  Give those (and only those) a fresh name - the comprehension is unchanged up to its bound variable."""
+    for c in ast.walk(node):
+        if not isinstance(c, (ast.ListComp, ast.SetComp, ast.GeneratorExp, ast.DictComp)):
+            continue
+        bound = {n.id for g in c.generators for n in ast.walk(g.target) if isinstance(n, ast.Name)}
+        ren = {}
+        for b in sorted(bound & taken):
+            k = b + '_'
+            while k in taken or k in bound:
+                k += '_'
+            ren[b] = k
+        if not ren:
+            continue
+        outer = {id(n) for n in ast.walk(c.generators[0].iter)}       # evaluated in the enclosing scope
+        for n in ast.walk(c):
+            if isinstance(n, ast.Name) and n.id in ren and id(n) not in outer:
+                n.id = ren[n.id]
+    return node
+
+
 def _has_yield(node):
     return any(isinstance(n, (ast.Yield, ast.YieldFrom, ast.Await)) for n in ast.walk(node))
 
@@ -165,6 +188,36 @@ def _in_deferred_context(st, call):
         return any(walk(c, deferred) for c in ast.iter_child_nodes(n))
     walk(st, False)
     return found[0]
+
+
+def _filter_loops(fnode):
+    """`for x in filter(keep, xs): S`  ->  `for x in xs: if not keep(x): continue; S` (in place; True when something changed).
+    The predicate is then read where it is applied - a local function or lambda given to filter() is a new helper like any
+    other.  Only plain-name loop targets; filter(None, xs) tests the element itself."""
+    hit = False
+    for lp in ast.walk(fnode):
+        if not isinstance(lp, ast.For) or not isinstance(lp.target, ast.Name):
+            continue
+        it = lp.iter
+        if not (isinstance(it, ast.Call) and isinstance(it.func, ast.Name) and it.func.id == 'filter' and len(it.args) == 2 and not it.keywords):
+            continue
+        pred, src = it.args
+        tgt = ast.Name(id=lp.target.id, ctx=ast.Load())
+        if isinstance(pred, ast.Constant) and pred.value is None:
+            test = tgt
+        elif isinstance(pred, ast.Name):
+            test = ast.Call(func=pred, args=[tgt], keywords=[])
+        elif isinstance(pred, ast.Lambda) and len(pred.args.args) == 1 and not pred.args.defaults and not pred.args.vararg and not pred.args.kwarg:
+            test = _Subst({pred.args.args[0].arg: tgt}).visit(copy.deepcopy(pred.body))
+        else:
+            continue
+        skip = ast.If(test=ast.UnaryOp(op=ast.Not(), operand=test), body=[ast.Continue()], orelse=[])
+        ast.copy_location(skip, lp)
+        ast.fix_missing_locations(skip)
+        lp.iter = src
+        lp.body = [skip] + lp.body
+        hit = True
+    return hit
 
 
 class Inliner(object):
@@ -283,14 +336,34 @@ class Inliner(object):
             return None
         mapping, prelude = bound
         ebody = self.expr_body(hnode)
+        taken = {n.id for n in ast.walk(func.raw_node) if isinstance(n, ast.Name)} | set(mapping)
+        for e_ in mapping.values():
+            taken |= {n.id for n in ast.walk(e_) if isinstance(n, ast.Name)}
         if ebody is not None and not prelude:
-            new_e = _Subst(mapping).visit(copy.deepcopy(ebody))
+            new_e = _Subst(mapping).visit(_fresh_comprehension_vars(copy.deepcopy(ebody), taken))
             return [self._replace(st, call, new_e)]
         # a call inside a comprehension / lambda / conditional expression is evaluated per element (or not at all): only an
         # expression body can be substituted in place there, statements cannot be hoisted in front of the statement
         if _in_deferred_context(st, call):
             return None
-        body = [copy.deepcopy(s) for s in _strip_doc(hnode.body)]
+        body = [_fresh_comprehension_vars(copy.deepcopy(s), taken) for s in _strip_doc(hnode.body)]
+        # the same helper inlined a second time into one caller: its locals are other variables than those of the first copy
+        seen = self.__dict__.setdefault('_copies', {})
+        k = (id(func), id(hnode))
+        seen[k] = seen.get(k, 0) + 1
+        if seen[k] > 1:
+            own = _assigned_names(ast.Module(body=body, type_ignores=[])) - set(mapping)
+            ren = {}
+            for nm in sorted(own):
+                new_nm = '%s_%d' % (nm, seen[k])
+                while new_nm in taken:
+                    new_nm += '_'
+                ren[nm] = new_nm
+            for s_ in body + prelude:
+                for n_ in ast.walk(s_):
+                    if isinstance(n_, ast.Name) and n_.id in ren:
+                        n_.id = ren[n_.id]
+            mapping = {ren.get(p_, p_): e_ for p_, e_ in mapping.items()}
         body = [_Subst(mapping).visit(s) for s in body]
         if _returns_outside_guards(body):
             if isinstance(st, ast.Return) and st.value is call:
@@ -372,7 +445,7 @@ class Inliner(object):
         if self.index.known_functions is None:
             return node
         new = copy.deepcopy(node)
-        changed = [False]
+        changed = [_filter_loops(new)]
 
         def block(stmts, local_defs, depth):
             local_defs = dict(local_defs)
@@ -393,7 +466,8 @@ class Inliner(object):
                         continue
                     for fld in ('body', 'orelse', 'finalbody'):
                         seq = getattr(cur, fld, None)
-                        if isinstance(seq, list) and seq and isinstance(seq[0], ast.stmt) and not isinstance(cur, (ast.FunctionDef, ast.AsyncFunctionDef, ast.ClassDef)):
+                        # nested functions (closures such as decorator wrappers) are expanded too; classes are not
+                        if isinstance(seq, list) and seq and isinstance(seq[0], ast.stmt) and not isinstance(cur, (ast.ClassDef,)):
                             setattr(cur, fld, block(seq, local_defs, depth))
                     if isinstance(cur, ast.Try):
                         for h in cur.handlers:
